@@ -3,7 +3,8 @@
 //! real reader, and everything the reader exposes is printed in a canonical one-line form.
 //! Output: `<result> ;; <float oracle table> ;; <tree dump>`
 //!   result  = `OK <metadata dump>` | `E:<Variant>` | `PANIC`
-//!   oracle  = for "0" and every text node / attribute value of the document that parses as f64 or f32:
+//!   oracle  = for "0", every text node, every concatenation of the text children of an element and every
+//!             attribute value of the document that parses as f64 or f32:
 //!             `<=texthex>:<f64 bits|->:<f32 bits|->` (NaN canonicalised)
 //!   tree    = the XMLTREE dump (ext_xmltree.rs) or err-utf8 / err-parse
 //! XMETA <hex of XML bytes>: only the result part.
@@ -429,6 +430,9 @@ pub fn oracle_table(xml: &[u8]) -> String {
                     for a in n.attributes() {
                         oracle_entry(a.value(), &mut seen, &mut out);
                     }
+                    // the reader parses the concatenation of all text children of an element
+                    let all: String = n.children().filter(|c| c.is_text()).filter_map(|c| c.text()).collect();
+                    oracle_entry(&all, &mut seen, &mut out);
                 }
             }
         }
